@@ -55,7 +55,7 @@ InvExplicitWins == AtEnd =>
     \A g \in Given :
        /\ (x.pc \in {"main", "end"} /\ x.m.pdone /\ g[1] \notin DelsOfCall) => Shown(x.m.ns, g[1]) = g[2]
        /\ \A i \in DOMAIN Log : (ParsedAt(Log) > 0 /\ i > ParsedAt(Log) /\ KindAt(Log, i) \in {"delayed", "raw"})
-                                  => HK(Log[i].h).n # g[1]
+                                  => (g[1] \in DelsOfCall \/ HK(Log[i].h).n # g[1])
 InvFinalsPopped == x.m.pdone => /\ \A i \in DOMAIN x.m.ns : x.m.ns[i].k # "fin"
                                 /\ \A i \in DOMAIN x.m.snap : ~(Has(x.m.ns, x.m.snap[i].a) /\ Get(x.m.ns, x.m.snap[i].a) = x.m.snap[i])
 InvPreOnce == AtEnd => \A i \in DOMAIN Log : KindAt(Log, i) = "pre" => HK(Log[i].h).par \notin st.pre
